@@ -24,6 +24,7 @@ class Engine:
     sink = None          # callable(cond: z3 Bool, what: str) or None
     axioms = []          # global facts (true in every state)
     guards = []          # conditions under which the code being evaluated is reached
+    lemmas = []          # (name, hyps, goal): induction steps of lemmas whose conclusion was added to axioms
     oracle = None        # callable(cond term, guards) -> True/False/None, installed by the executor
     var_bounds = {}      # term id of an input variable -> (lo, hi) assumed at its creation on every path
     concrete = False     # judging a concrete run: bounded quantifiers are expanded, not handed to z3
@@ -40,6 +41,7 @@ class Engine:
         cls.concrete = False
         cls.var_bounds = {}
         cls.oracle = None
+        cls.lemmas = []
         _KNOWN.clear()
         _BND.clear()
         del _BND_KEEP[:]
